@@ -212,7 +212,15 @@ class BeliefPropagationDecoder(BaseBlockDecoder[Union[LinearBlockCodeEncoder, LD
         self.n_c = self.H.size(0)
         self.prep_edge_ind()
         if not self.standard:
-            self.idx_mess_t = torch.where(self.G.sum(0) == 1)[0]
+            # Positions carrying the message bits: for row i of G the first column equal to the
+            # unit vector e_i (other weight-one columns, e.g. all columns of a repetition code,
+            # are repeated or parity positions and must not be reported as message bits)
+            weight_one = self.G.sum(0) == 1
+            unit_cols = [torch.where(weight_one & (self.G[i] == 1))[0] for i in range(self.G.size(0))]
+            if all(cols.numel() > 0 for cols in unit_cols):
+                self.idx_mess_t = torch.stack([cols[0] for cols in unit_cols])
+            else:
+                self.idx_mess_t = torch.where(weight_one)[0]
 
     def prep_edge_ind(self):
         """Prepare edge indices and map structures for the Tanner graph.
